@@ -69,6 +69,21 @@ func perturb(g *gen.Gen, t *gen.Node) (out []*gen.Node, labels []string) {
 			}
 		}
 	}
+	// one type-key extension EMPTIED: a domain declared as errors.Domain(""), a key marker that is ""
+	if c, all := t.Clone(); true {
+		for _, n := range all {
+			if n.Kind == "domain" || n.Kind == "domainraw" {
+				n.Kind, n.S = "domainraw", []string{""}
+				add(c, "perturb-extension-emptied")
+				break
+			}
+			if n.Kind == "keymarkwrap" {
+				n.S[1] = ""
+				add(c, "perturb-extension-emptied")
+				break
+			}
+		}
+	}
 	// one extra transparent layer on top / in the middle
 	if c, all := t.Clone(); true {
 		add(&gen.Node{Kind: "withstack", Kids: []*gen.Node{c}}, "perturb-extra-layer-top")
